@@ -8,6 +8,8 @@
 
    reset <timeout_ms> <deny>
    msg <sid> <pid> <fid> <fcnt> <addr> <data> <hook> <dialerr> <wok> <victim>
+   slowdial <msg fields> <hook> <dialerr> <wok> <victim> <g1/g2/...>   datagram whose dial completes only at the
+                                                      first sweep that finds the entry idle (census only)
    hold <sid> <pid> <fid> <fcnt> <addr> <data>        receive-loop lookup only (pointer kept)
    release <hook> <dialerr> <wok> <victim>            entry.Feed on the held pointer
    reply <k> <raddr> <data> <ok|err|block|big>        packet arrives on socket k; result of SendMessage
@@ -191,6 +193,23 @@ def step (d : DS) (line : String) : DS × String :=
         else flush (settle (runL d ([.recv m, .lookup, .insert d.now] ++ ls)))
       | none => (d, "bad-op")
     | none => (d, "bad-op")
+  | ["slowdial", sid, pid, fid, fcnt, addr, data, hook, de, wok, victim, groups] =>
+    -- a datagram at `now`, then the sweeps up to the first one that finds Last = now idle; the model's
+    -- initConn is atomic (skeleton_initConn), so only the census is printed and compared
+    match mkMsg sid pid fid fcnt addr data, (groups.splitOn "/").mapM parseIds with
+    | some m, some gs =>
+      match feedLabels d m hook de wok victim with
+      | some ls =>
+        if d.s.rl != .idle ∨ d.s.down then (d, "busy")
+        else if intervalMs = 0 then (d, "bad-op")
+        else
+          let d1 := settle (runL d ([.recv m, .lookup, .insert d.now] ++ ls))
+          let tk := ((d.now + d.timeout) / intervalMs + 1) * intervalMs
+          let d2 := doTicks d1 (ticksIn d.now (tk - d.now)) gs
+          let r := flush { d2 with now := tk }
+          (r.1, "slow | " ++ summary r.1.s)
+      | none => (d, "bad-op")
+    | _, _ => (d, "bad-op")
   | ["hold", sid, pid, fid, fcnt, addr, data] =>
     match mkMsg sid pid fid fcnt addr data with
     | some m =>
